@@ -5,7 +5,10 @@
          (obs (skip)|(accepted)|(delay n<ms>)|(serveret r)|(ret r)|(pending)|
               (sdret r)|(none)|(timeout) ...)
          (serve running|nil|err|other) (conns open|closed|finished ...)
-         (accepts n<calls>)) *)
+         (accepts n<calls>)
+         [(liserr once|always)])    the scripted listener's Close returns an error
+                                    (the first time / every time it is called);
+                                    r: nil closed ctx err liserr *)
 From Coq Require Import List Arith NArith Bool String.
 From Smtp Require Import Bytes Sx CheckBase ServerLife.
 Import ListNotations.
@@ -88,6 +91,7 @@ Definition dec_ret (x : sx) : option ret :=
   else if sx_is "closed" x then Some RServerClosed
   else if sx_is "ctx" x then Some RCtxErr
   else if sx_is "err" x then Some RAcceptErr
+  else if sx_is "liserr" x then Some RListenerErr
   else None.
 
 Definition dec_obs (x : sx) : option oobs :=
@@ -113,7 +117,8 @@ Definition dec_obs (x : sx) : option oobs :=
 
 Definition ret_eqb (a b : ret) : bool :=
   match a, b with
-  | RNil, RNil | RServerClosed, RServerClosed | RCtxErr, RCtxErr | RAcceptErr, RAcceptErr => true
+  | RNil, RNil | RServerClosed, RServerClosed | RCtxErr, RCtxErr | RAcceptErr, RAcceptErr
+  | RListenerErr, RListenerErr => true
   | _, _ => false
   end.
 
@@ -139,7 +144,8 @@ Fixpoint all_agree (ms : list obs) (os : list oobs) : bool :=
   end.
 
 Definition show_ret (r : ret) : sx :=
-  XT (match r with RNil => "nil" | RServerClosed => "closed" | RCtxErr => "ctx" | RAcceptErr => "err" end).
+  XT (match r with RNil => "nil" | RServerClosed => "closed" | RCtxErr => "ctx" | RAcceptErr => "err"
+              | RListenerErr => "liserr" end).
 
 Definition show_obs (b : obs) : sx :=
   match b with
@@ -167,7 +173,7 @@ Definition show_conn (c : cstate) : sx :=
 
 Record mon := mkMon {
   m_stopped : bool;     (* a Close / Shutdown call has been made *)
-  m_closed : bool;      (* a Close call returned nil *)
+  m_closed : bool;      (* the first Close call has been made (whatever it returned) *)
   m_gone : bool;        (* Serve has been seen to return, or must have *)
   m_conns : list bool;  (* accepted connections: still active? *)
   m_pending : bool;     (* a Shutdown call blocks *)
@@ -195,7 +201,14 @@ Definition is_ob (o : oobs) (b : obs) : bool :=
 Definition flag (m : mon) (ok : bool) : mon :=
   mkMon (m_stopped m) (m_closed m) (m_gone m) (m_conns m) (m_pending m) (m_bad m || negb ok).
 
-Definition mon_op (m : mon) (o : op) (b : oobs) : mon :=
+(* e: the listener's Close returns an error (an INPUT of the case: the
+   harness scripted it).  Then the first Close / Shutdown must return that
+   error ("returns any error returned from closing the server's underlying
+   listener(s)") - and must still do everything else: Close ends every
+   connection, Shutdown waits for the active ones. *)
+Definition okr (e : bool) : ret := if e then RListenerErr else RNil.
+
+Definition mon_op (e : bool) (m : mon) (o : op) (b : oobs) : mon :=
   match b with
   | OTimeout | OOther => flag m false   (* something hung, or an unknown error came back *)
   | _ =>
@@ -223,11 +236,11 @@ Definition mon_op (m : mon) (o : op) (b : oobs) : mon :=
       else
         (* Close ends every connection; Serve returns (checked at the end) *)
         let m' := mkMon true true true (map (fun _ => false) (m_conns m)) false (m_bad m) in
-        flag m' (is_ob b (BRet RNil))
+        flag m' (is_ob b (BRet (okr e)))
   | OShutdown =>
       if m_stopped m then flag m (is_ob b (BRet RServerClosed))
       else if (m_open m =? 0)%nat then
-        flag (mkMon true (m_closed m) true (m_conns m) false (m_bad m)) (is_ob b (BRet RNil))
+        flag (mkMon true (m_closed m) true (m_conns m) false (m_bad m)) (is_ob b (BRet (okr e)))
       else
         flag (mkMon true (m_closed m) true (m_conns m) true (m_bad m)) (is_ob b BPending)
   | OFinish k =>
@@ -238,7 +251,7 @@ Definition mon_op (m : mon) (o : op) (b : oobs) : mon :=
           if m_pending m then
             if (m_open m' =? 0)%nat then
               flag (mkMon (m_stopped m) (m_closed m) (m_gone m) cs false (m_bad m))
-                   (is_ob b (BShutdownRet RNil))
+                   (is_ob b (BShutdownRet (okr e)))
             else flag m' (is_ob b BNone)
           else flag m' (is_ob b BNone)
       | _ => flag m (is_ob b BSkip)
@@ -258,17 +271,17 @@ Definition mon_window (m : mon) : mon :=
   if m_stopped m || m_gone m then m   (* Serve accepts nothing: no window *)
   else mkMon (m_stopped m) (m_closed m) (m_gone m) (m_conns m ++ [false]) (m_pending m) (m_bad m).
 
-Definition mon_step (m : mon) (h : hop) (b : oobs) : mon :=
+Definition mon_step (e : bool) (m : mon) (h : hop) (b : oobs) : mon :=
   match h with
-  | HConn => mon_op m (OAccept AConn) b
-  | HOp o => mon_op m o b
-  | HCloseW => mon_op (mon_window m) OClose b
-  | HShutdownW => mon_op (mon_window m) OShutdown b
+  | HConn => mon_op e m (OAccept AConn) b
+  | HOp o => mon_op e m o b
+  | HCloseW => mon_op e (mon_window m) OClose b
+  | HShutdownW => mon_op e (mon_window m) OShutdown b
   end.
 
-Fixpoint mon_run (m : mon) (ops : list hop) (bs : list oobs) : mon :=
+Fixpoint mon_run (e : bool) (m : mon) (ops : list hop) (bs : list oobs) : mon :=
   match ops, bs with
-  | o :: ops', b :: bs' => mon_run (mon_step m o b) ops' bs'
+  | o :: ops', b :: bs' => mon_run e (mon_step e m o b) ops' bs'
   | [], [] => m
   | _, _ => flag m false
   end.
@@ -308,13 +321,14 @@ Definition check_life (args : list sx) : verdict :=
   | Some opsx, Some obsx, Some serve, Some conns =>
       match map_opt dec_op opsx, map_opt dec_obs obsx with
       | Some ops, Some obl =>
-          let '(s, ms) := run_h init ops in
+          let e := match assoc1 "liserr" args with Some _ => true | None => false end in
+          let '(s, ms) := run_h (init_e e) ops in
           let model := SL [SL (XT "obs" :: map show_obs ms); SL [XT "serve"; show_serve s];
                            SL (XT "conns" :: map show_conn (ServerLife.conns s))] in
           let agree :=
             all_agree ms obl && sx_eqb (show_serve s) serve &&
             sx_eqb (SL (map show_conn (ServerLife.conns s))) (SL conns) in
-          let m := mon_run mon_init ops obl in
+          let m := mon_run e mon_init ops obl in
           let ok := negb (m_bad m) && mon_final m serve conns in
           let tags :=
             (if has_ob obl (BRet RNil) then [bs "stop"] else []) ++
@@ -326,7 +340,12 @@ Definition check_life (args : list sx) : verdict :=
             (if (0 <? count_delays obl)%nat then [bs "temp-error"] else []) ++
             (if (9 <=? count_delays obl)%nat then [bs "backoff-cap"] else []) ++
             (if existsb (fun c => sx_is "closed" c) conns then [bs "conn-closed-by-close"] else []) ++
-            (if (0 <? count_windows init ops)%nat then [bs "accept-window"] else []) in
+            (if (0 <? count_windows (init_e e) ops)%nat then [bs "accept-window"] else []) ++
+            (if e then [bs "listener-close-fails"] else []) ++
+            (if has_ob obl (BRet RListenerErr) then [bs "listener-error-returned"] else []) ++
+            (if has_ob obl (BShutdownRet RListenerErr) then [bs "listener-error-after-wait"] else []) ++
+            (if e && has_ob obl (BRet RListenerErr) && existsb (fun c => sx_is "closed" c) conns
+             then [bs "listener-error-conns-closed"] else []) in
           mkV true agree model (if ok then [] else [bs "C20"]) [] tags
       | _, _ => bad_case
       end
